@@ -1819,6 +1819,15 @@ def gen_C18(rng, tier):
                     h.ops.append("%s=interp@0 %s %s" % (h.newu(), ",".join(pts), ",".join([a, b, a])))
             if desc_card(desc) <= 300 and rng.random() < 0.12:
                 h.ops.append("escr@0")      # Elements(), then the caller overwrites everything it was given
+            if rng.random() < 0.08:
+                # a result of Inv / Times / Pow is changed in place by its owner; the same request again must give the
+                # same answer (with a table the result must not be the table's own entry)
+                x = rng.choice(es)
+                op1 = rng.choice(["inv %s" % x, "times %s %s" % (x, rng.choice(es)), "pow %s %d" % (x, rng.choice([2, 3, 5]))])
+                r1 = h.newe(); h.ops.append("%s=%s" % (r1, op1))
+                h.ops.append(rng.choice(["setneg %s" % r1, "add %s %s" % (r1, es[4]), "mult %s %s" % (r1, rng.choice(es)), "setu %s 5" % r1]))
+                r2 = h.newe(); h.ops.append("%s=%s" % (r2, op1)); es.append(r2)
+                h.ops.append("%s=times %s %s" % (h.newe(), x, r2))
         L.append(h.line())
     # every element of a field with its table against a twin field object without table (x*g, x^-1, x*1)
     for (p, k, ext) in ([(2, 16, True), (17, 4, False), (5, 7, False), (257, 2, False), (41, 3, False), (3, 2, False), (251, 1, False), (1021, 1, False), (2, 3, True), (7, 1, True)]
